@@ -9,9 +9,12 @@ namespace preprocess {
 
 namespace {
 unsigned int ConsumeInt(const char *&arg) {
+  // Field numbers are plain decimal digits; strtoul alone would also accept leading whitespace and a sign.
+  UTIL_THROW_IF(*arg < '0' || *arg > '9', util::Exception, "Expected field " << arg << " to begin with a number.");
   char *end;
-  unsigned int ret = strtoul(arg, &end, 10);
-  UTIL_THROW_IF(end == arg, util::Exception, "Expected field " << arg << " to begin with a number.");
+  unsigned long ret = strtoul(arg, &end, 10);
+  // cut is 1-indexed and the value has to fit below kInfiniteEnd (strtoul saturates on overflow).
+  UTIL_THROW_IF(ret == 0 || ret >= FieldRange::kInfiniteEnd, util::Exception, "Field number out of range in " << arg);
   arg = end;
   return ret;
 }
@@ -19,6 +22,7 @@ unsigned int ConsumeInt(const char *&arg) {
 
 void ParseFields(const char *arg, std::vector<FieldRange> &indices) {
   FieldRange add;
+  UTIL_THROW_IF(!*arg, util::Exception, "Empty field list");
   while (*arg) {
     if (*arg == '-') {
       add.begin = 0;
@@ -44,9 +48,12 @@ void ParseFields(const char *arg, std::vector<FieldRange> &indices) {
       default:
         UTIL_THROW(util::Exception, "Expected , - or string end after number in " << arg);
     }
+    // A range is complete here: 2-3-1 is not 2-3,-1.
+    UTIL_THROW_IF(*arg && *arg != ',', util::Exception, "Expected , or string end after range in " << arg);
     // Swallow ,
     if (*arg == ',') {
       ++arg;
+      UTIL_THROW_IF(!*arg, util::Exception, "Field list ends with ,");
     }
     indices.push_back(add);
   }
